@@ -3,6 +3,7 @@
 The data engine ties the code generated from the schema with the document data, and with
 dependency tracking.
 """
+import contextlib
 import itertools
 import logging
 import re
@@ -218,6 +219,9 @@ class Engine(object):
     # Map from node to set of row_ids, for cells that should not be recalculated because they are
     # data columns manually changed in this UserAction.
     self._prevent_recompute_map = {}
+
+    # Set while replaying doc actions (undo/redo); see replaying_doc_actions().
+    self._replaying_doc_actions = False
 
     # Whether any trigger columns may need to have their dependencies rebuilt.
     self._have_trigger_columns_changed = True
@@ -1126,6 +1130,22 @@ class Engine(object):
       prevented.update(row_ids)
     else:
       prevented.difference_update(row_ids)
+
+  @contextlib.contextmanager
+  def replaying_doc_actions(self):
+    """
+    While replaying doc actions (undo/redo), the effects of trigger formulas are already part of
+    the actions, so the changes made by the replayed actions must not fire them again.
+    """
+    saved = self._replaying_doc_actions
+    self._replaying_doc_actions = True
+    try:
+      yield
+    finally:
+      self._replaying_doc_actions = saved
+
+  def is_replaying_doc_actions(self):
+    return self._replaying_doc_actions
 
   def prevent_dependent_trigger_recalc(self, node, row_ids):
     # Prevent recalculation of trigger formulas that list the given node among their recalcDeps.
